@@ -807,7 +807,7 @@ func (fr *Frame) indexAddr(x *ssa.IndexAddr, st *State, pc Term) Value {
 	switch s := v.(type) {
 	case SliceV:
 		u.oblige(fr, "index", x.Pos(), "", pc, And(Le(IntLit(0), idx), Lt(idx, s.Len)))
-		i := u.c.Def("idx", Add(s.Off, idx))
+		i := u.c.Def("idx", ElemIdx(s.Off, idx))
 		elem := x.X.Type().Underlying().(*types.Slice).Elem()
 		return PtrV{Base: s.Arr, Obj: elem, Arr: true, Idx: &i}
 	case PtrV:
